@@ -63,6 +63,39 @@ def listing_tokens(v: Any, leaf: Any = None) -> Optional[Tuple[Any, ...]]:
     return (sep, tuple(toks), over)
 
 
+def hoist_listing_shapes(prog: Any, I: Interp) -> List[Tuple[Any, Any]]:
+    """(separator, item tokens) of every dependency listing HTMLDocument._hoist_head_content can write (for sibling comparison)."""
+    fn = prog.function(CORE, "HTMLDocument._hoist_head_content")
+    ps = [a.arg for a in fn.args.args + fn.args.kwonlyargs]
+
+    def mk(run: Any):
+        x = SObj(ps[0], {"TAG"})
+        return ({ps[0]: x, "lib_prefix": SObj("lib_prefix", {"STR", "NONE"}), "include_version": SBool(("param", "include_version"))}, None)
+
+    cfg = Config()
+    cfg.opaque_all = True
+    out: List[Tuple[Any, Any]] = []
+    for l in I.run_function(CORE, "HTMLDocument._hoist_head_content", mk, cfg):
+        if l.kind != "return":
+            continue
+        for e in l.effects:
+            if e.kind != "call" or getattr(e.target, "qual", "") not in ("Tag.append", "Tag.extend"):
+                continue
+            vals = []
+            for v in e.value or []:
+                if isinstance(v, SList) and v.mode == "concrete":
+                    vals += [i.value if isinstance(i, SSplat) else i for i in v.items]
+                else:
+                    vals.append(v)
+            for v in vals:
+                if isinstance(v, SNew) and v.args[:1] == ("script",) and len(v.args) > 1:
+                    lt = listing_tokens(v.args[1], l)
+                    shape = (lt[0], lt[1]) if lt is not None else ("?", short(v.args[1]))
+                    if shape not in out:
+                        out.append(shape)
+    return out
+
+
 LISTING = (";", (("FIELD", "name", "PLAIN"), ("LIT", "["), ("STR-OF", "version"), ("LIT", "]")))
 
 
@@ -237,6 +270,9 @@ def init_obligations(ctx: Ctx, I: Interp) -> None:
                   f"then changes a list the caller (or another document) still uses",
                   witness="tl = TagList(div()); a = HTMLDocument(tl); b = HTMLDocument(tl); a.append(dep); b.render()")
     ctx.min_count("HTMLDocument.__init__ paths", n, 1)
+    # content appended later: append() forwards everything to the content list
+    from .c14 import _delegates
+    _delegates(ctx, I, "append", cls="HTMLDocument", mod=CORE, kind="HTMLDOC", field="_content", rule="C11.R2")
 
 
 def _exactly_one(atoms: Any) -> bool:
@@ -553,6 +589,65 @@ def _holds(t: Tuple[Any, ...]) -> bool:
     return False
 
 
+def head_field(ctx: Ctx, I: Interp) -> None:
+    """What HTMLDependency stores as its head payload: None stays None, a bare string is markup (TagList(HTML(s))), anything
+    else is TagList(head) - its items are ordinary children, so plain strings in it are escaped when hoisted."""
+    prog = ctx.prog
+    where = f"{CORE}:HTMLDependency.__init__"
+    fn = prog.function(CORE, "HTMLDependency.__init__")
+    names = [a.arg for a in fn.args.args + fn.args.kwonlyargs]
+    ctx.require("head" in names, "HTMLDependency.__init__ has no head parameter")
+    cfg = Config()
+    cfg.opaque_all = True
+    cfg.coarse_counts = True
+    cfg.loop_effects = False
+
+    def mk(run: Any):
+        s = SObj("self", {"HTMLDEP"}, origin="new")
+        b: Dict[str, Any] = {names[0]: s}
+        for nm in names[1:]:
+            if nm == "head":
+                h = SObj("head", {"NONE", "STR", "TAG", "TAGLIST", "LIST", "HTMLSTR"})
+                b[nm] = h
+                run.__dict__["h"] = h
+            elif nm in ("name",):
+                b[nm] = SObj(nm, {"STR"})
+            elif nm == "version":
+                b[nm] = SObj(nm, {"STR"})
+            elif nm == "all_files":
+                b[nm] = SBool(("param", nm))
+            else:
+                b[nm] = None
+        run.__dict__["s"] = s
+        return (b, s)
+
+    seen = set()
+    for l in I.run_function(CORE, "HTMLDependency.__init__", mk, cfg):
+        if l.kind != "return":
+            continue
+        s, h = l.run.__dict__["s"], l.run.__dict__["h"]
+        st = [e for e in l.effects if e.kind == "store_attr" and e.target is s and e.key == "head"]
+        ctx.require(bool(st), "HTMLDependency.__init__ does not store self.head on some path")
+        v = st[-1].value
+        for k in sorted(h.kinds):
+            seen.add(k)
+            if k == "NONE":
+                ok = v is None
+                want = "None"
+            elif k == "STR":
+                a0 = v.args[0] if isinstance(v, SNew) and v.cls_name == "TagList" and len(v.args) == 1 and not v.star else None
+                ok = isinstance(a0, SNew) and a0.cls_name == "HTML" and len(a0.args) == 1 and a0.args[0] is h
+                want = "TagList(HTML(head))"
+            else:
+                ok = isinstance(v, SNew) and v.cls_name == "TagList" and len(v.args) == 1 and v.args[0] is h and not v.star and not v.kwargs
+                want = "TagList(head)"
+            ctx.check(bool(ok), "C11.R5", f"a head payload of kind {k} is stored as {want}", where, f"head {k} -> {short(v)}",
+                      f"a `head=` payload of kind {k} is stored as {short(v)}, not {want}: "
+                      + ("plain strings inside a list / TagList payload are marked as markup and reach <head> unescaped" if k not in ("NONE", "STR") else "the payload is changed"),
+                      witness="HTMLDocument(div(head_content('a<b', tags.title('t')))).render()")
+    ctx.require({"NONE", "STR", "TAG"} <= seen, "HTMLDependency.__init__: head cases incomplete")
+
+
 def as_html_tags_obligations(ctx: Ctx, I: Interp) -> None:
     prog = ctx.prog
     where = f"{CORE}:HTMLDependency.as_html_tags"
@@ -654,5 +749,9 @@ def check(ctx: Ctx) -> None:
     render_obligations(ctx, I)
     case_table(ctx, I)
     hoist_obligations(ctx, I)
+    # "every resolved dependency": the collection the hoisting starts from (rules C10.collect / C10.dedup, shared with C10)
+    from .c10 import collection_table
+    collection_table(ctx, I)
+    head_field(ctx, I)
     as_html_tags_obligations(ctx, I)
     agreement(ctx, I)
